@@ -791,6 +791,17 @@ class DataFrameSchema(Generic[TDataObject], BaseSchema):
         }
 
         new_schema.columns = new_columns
+
+        # keep the jointly-unique column names pointing at the renamed columns
+        if new_schema.unique:
+            new_schema.unique = [
+                (
+                    [rename_dict.get(c, c) for c in x]
+                    if isinstance(x, (list, tuple))
+                    else rename_dict.get(x, x)
+                )
+                for x in new_schema.unique
+            ]
         return cast(Self, new_schema)
 
     def select_columns(self, columns: List[Any]) -> Self:
